@@ -9,9 +9,9 @@ EXTENDS Chain, Json, IOUtils
 
 Rec == ndJsonDeserialize(IOEnv.TRACE)
 
-VARIABLES l, bad, wal
+VARIABLES l, bad, wal, lost, det   \* det: the node has attempted a chain without known ancestors (history)
 
-tvars == <<A, S, w, last, l, bad, wal>>
+tvars == <<A, S, w, last, l, bad, wal, det, lost>>
 
 Rng(s) == {s[i] : i \in DOMAIN s}
 
@@ -20,7 +20,8 @@ Attrs(e) == [parent |-> e.attrs.parent, height |-> e.attrs.height, gt |-> e.attr
              ins |-> Rng(e.attrs.ins), outs |-> Rng(e.attrs.outs)]
 
 Obs(e) == [stored |-> Rng(e.st.stored), inlc |-> Rng(e.st.inlc),
-           lc |-> [h \in 1..MaxH |-> e.st.lc[h]], tip |-> e.st.tip, utxo |-> Rng(e.st.utxo)]
+           lc |-> [h \in 1..MaxH |-> e.st.lc[h]], tip |-> e.st.tip, utxo |-> Rng(e.st.utxo),
+           top |-> e.st.top]
 
 Accepted(res) == res \in {"AddedLc", "AddedSide"}
 IsPanic(res) == Len(res) >= 6 /\ SubSeq(res, 1, 6) = "Panic:"
@@ -36,17 +37,33 @@ Bound(A2, P, b) == BoundM(A2, P, b, "flags")
 
 KindStr(A2, P, b) == Decide(A2, P, b, "flags").k \o "/" \o Decide(A2, P, b, "stored").k
 
-Checks(e, A2, P, T, prevwal) ==
+Checks(e, A2, P, T, prevwal, det2, lost1) ==
     LET b == e.b
+        (* regimes of the known findings.  modelled: the state after the rejected call differs from *)
+        (* the state before it and is exactly what Chain.tla (FailState) says a reorganisation      *)
+        (* failing at some block of the candidate leaves behind: purges of the blocks wound before  *)
+        (* the failure are not undone and, det2: when the node has (now or earlier) tried a chain   *)
+        (* that shares no block with its own, unwinding inserts inputs it never held.  Any other    *)
+        (* difference is reported without a regime tag.                                             *)
+        d == Decide(A2, P, b, "flags")
+        wo == IF d.k = "Reorg" THEN RevSeq(d.new) ELSE <<>>
+        fails == IF d.k = "Reorg" THEN {FailState(A2, P, d.old, wo, i) : i \in DOMAIN wo} ELSE {}
+        \* the height counter is not part of what C04 lists; entries of blocks below the retention
+        \* horizon (as of the highest block ever wound) are not part of the ledger any more
+        NoTop(X) == [X EXCEPT !.top = 0, !.utxo = @ \ (StaleOuts(A2, T) \cup StaleOuts(A2, P))]
+        modelled == NoTop(T) # NoTop(P) /\ NoTop(T) \in {NoTop(f) : f \in fails}
+        regime == IF ~modelled THEN ""
+                  ELSE IF det2 THEN "-on-chain-without-known-ancestors" ELSE "-purged-ahead"
+        \* the extreme of purging ahead: a candidate of 2G+1 stored blocks purged the old tip itself;
+        \* the rejected call (now or earlier in the scenario) left the node without a chain
+        lost2 == lost1 \/ (modelled /\ ~Accepted(e.res) /\ T.tip = None /\ P.tip # None)
+        sfx == IF lost2 THEN "-after-purging-ahead-erased-the-chain" ELSE ""
         c03 == IF IsPanic(e.res) THEN {} ELSE
-               {Bad(e, "C03", x) : x \in Inconsistencies(A2, T)}
-        (* the chain the node was on before the call starts at a block whose parent it never *)
-        (* wound: it runs without the outputs of the older blocks (Chain.tla, Inconsistencies) *)
-        pp == IF P.tip = None THEN <<>> ELSE FlaggedPath(A2, P)
-        unrooted == pp # <<>> /\ A2[pp[1]].parent # None
-        regime == IF unrooted THEN "-on-chain-without-known-ancestors" ELSE ""
-        c04 == (IF IsPanic(e.res) THEN {Bad(e, "C04", "panic")} ELSE {})
-               \cup (IF ~Accepted(e.res) /\ ~IsPanic(e.res) /\ T # P
+               {Bad(e, "C03", x \o sfx) : x \in InconsistenciesT(A2, T, ~det2) \ (IF det2 THEN {"utxo"} ELSE {})}
+        c04 == (IF IsPanic(e.res)
+                THEN {Bad(e, "C04", IF PanicPossible(A2, P, b) THEN "panic-rewinding-a-purged-block"
+                                    ELSE IF det2 THEN "panic-on-chain-without-known-ancestors" ELSE "panic")} ELSE {})
+               \cup (IF ~Accepted(e.res) /\ ~IsPanic(e.res) /\ NoTop(T) # NoTop(P)
                      THEN {Bad(e, "C04", "rejected-block-left-trace" \o regime \o ":" \o
                               (IF T.tip # P.tip THEN "tip " ELSE "") \o
                               (IF T.utxo # P.utxo THEN "utxo " ELSE "") \o
@@ -54,7 +71,12 @@ Checks(e, A2, P, T, prevwal) ==
                               (IF T.inlc # P.inlc THEN "flags " ELSE "") \o
                               (IF T.stored # P.stored THEN "stored" ELSE ""))} ELSE {})
                \cup (IF ~Accepted(e.res) /\ ~IsPanic(e.res) /\ e.wal # prevwal
-                     THEN {Bad(e, "C04", "rejected-block-changed-wallet" \o regime)} ELSE {})
+                     THEN {Bad(e, "C04", "rejected-block-changed-wallet" \o
+                                 (IF modelled THEN regime
+                                  \* the inserted inputs may all be entries below the retention horizon,
+                                  \* which the state comparison leaves out but the wallet lists
+                                  ELSE IF det2 /\ T.utxo # P.utxo THEN "-on-chain-without-known-ancestors"
+                                  ELSE ""))} ELSE {})
                \cup (IF \E i \in DOMAIN e.steps : e.steps[i][1] = "B"
                      THEN {Bad(e, "C04", "step-budget-exceeded")} ELSE {})
                \cup (IF Len(e.steps) > Bound(A2, P, b)
@@ -62,35 +84,45 @@ Checks(e, A2, P, T, prevwal) ==
         moved == T.tip # P.tip
         c05 == IF IsPanic(e.res) THEN {} ELSE
                (IF moved /\ ~(T.tip = b /\ Criteria(A2, P, T))
-                THEN {Bad(e, "C05", "tip-moved-without-criteria:" \o KindStr(A2, P, b))} ELSE {})
+                THEN {Bad(e, "C05", "tip-moved-without-criteria:" \o KindStr(A2, P, b) \o sfx)} ELSE {})
                \cup (IF MustAdopt(A2, P, b) /\ T.tip # b
-                     THEN {Bad(e, "C05", "adoptable-block-not-adopted")} ELSE {})
+                     THEN {Bad(e, "C05", "adoptable-block-not-adopted" \o sfx)} ELSE {})
                \cup (IF P.tip # None /\ T.tip # None /\ T.tip \in DOMAIN A2 /\ P.tip \in DOMAIN A2
                         /\ A2[T.tip].height < A2[P.tip].height
-                     THEN {Bad(e, "C05", "tip-height-decreased")} ELSE {})
+                     THEN {Bad(e, "C05", "tip-height-decreased" \o sfx)} ELSE {})
                \cup (IF P.tip # None /\ T.tip = None
-                     THEN {Bad(e, "C05", "tip-lost")} ELSE {})
+                     THEN {Bad(e, "C05", "tip-lost" \o sfx)} ELSE {})
                \cup (IF b \notin P.stored /\ P.stored # {} /\ A2[b].parent \notin P.stored
                         /\ (T.tip # P.tip \/ T.lc # P.lc \/ T.inlc # P.inlc \/ T.utxo # P.utxo)
-                     THEN {Bad(e, "C05", "orphan-disturbed-index")} ELSE {})
+                     THEN {Bad(e, "C05", "orphan-disturbed-index" \o sfx)} ELSE {})
     IN c03 \cup c04 \cup c05
+
+LostNow(e, A2, P, T, det2) ==
+    LET d == Decide(A2, P, e.b, "flags")
+        wo == IF d.k = "Reorg" THEN RevSeq(d.new) ELSE <<>>
+        fails == IF d.k = "Reorg" THEN {FailState(A2, P, d.old, wo, i) : i \in DOMAIN wo} ELSE {}
+        N(X) == [X EXCEPT !.top = 0, !.utxo = @ \ (StaleOuts(A2, T) \cup StaleOuts(A2, P))]
+    IN ~Accepted(e.res) /\ ~IsPanic(e.res) /\ T.tip = None /\ P.tip # None /\ N(T) \in {N(f) : f \in fails}
 
 TraceInit ==
     /\ A = <<>> /\ S = EmptyState /\ w = Idle
-    /\ last = [b |-> None, res |-> "none", ok |-> TRUE]
-    /\ l = 1 /\ bad = {} /\ wal = <<>>
+    /\ last = [b |-> None, res |-> "none", ok |-> TRUE, same |-> TRUE, det |-> FALSE]
+    /\ l = 1 /\ bad = {} /\ wal = <<>> /\ det = FALSE /\ lost = FALSE
 
 TraceNext ==
     /\ l <= Len(Rec)
     /\ LET e == Rec[l] IN
        IF e.ev = "Reset"
-       THEN /\ A' = <<>> /\ S' = EmptyState /\ wal' = <<>> /\ bad' = bad
+       THEN /\ A' = <<>> /\ S' = EmptyState /\ wal' = <<>> /\ bad' = bad /\ det' = FALSE /\ lost' = FALSE
        ELSE LET A2 == IF e.b \in DOMAIN A THEN A ELSE (e.b :> Attrs(e)) @@ A
                 T == Obs(e)
+                det2 == det \/ DetachedReorg(A2, S, e.b)
             IN /\ A' = A2
                /\ S' = T
                /\ wal' = e.wal
-               /\ bad' = bad \cup Checks(e, A2, S, T, wal)
+               /\ det' = det2
+               /\ lost' = (lost \/ LostNow(e, A2, S, T, det2))
+               /\ bad' = bad \cup Checks(e, A2, S, T, wal, det2, lost)
     /\ l' = l + 1
     /\ UNCHANGED <<w, last>>
 
